@@ -607,14 +607,14 @@ impl Model {
     }
 
     /// entries a chmod/chown visits: (path, via_follow)
-    fn visited(&self, a: &str, recurse: bool, follow: bool) -> Option<Vec<String>> {
+    fn visited(&self, a: &str, recurse: bool, follow: bool) -> Result<Vec<String>, &'static str> {
         let mut out = vec![];
         let mut stack = vec![(a.to_string(), 0usize)];
         let mut guard = 0;
         while let Some((p, depth)) = stack.pop() {
             guard += 1;
             if guard > 500 {
-                return None; // link cycle under follow: LinkLooping territory, not modelled here
+                return Err("link cycle under follow"); // LinkLooping territory, not modelled here
             }
             let n = match self.node(&p) {
                 Some(n) => n,
@@ -623,8 +623,16 @@ impl Model {
             match &n.kind {
                 NKind::Link { target, .. } => {
                     if follow {
-                        if self.node(target).is_some() {
-                            stack.push((target.clone(), depth));
+                        let recorded_dir = matches!(&n.kind, NKind::Link { dir: true, .. });
+                        match self.node(target) {
+                            Some(NNode { kind: NKind::Link { .. }, .. }) => return Err("link to link chain under follow"),
+                            Some(t) => {
+                                if recorded_dir != matches!(t.kind, NKind::Dir) {
+                                    return Err("followed link whose recorded kind is stale");
+                                }
+                                stack.push((target.clone(), depth))
+                            },
+                            None => {},
                         }
                     } else {
                         out.push(p.clone());
@@ -643,7 +651,7 @@ impl Model {
         }
         out.sort();
         out.dedup();
-        Some(out)
+        Ok(out)
     }
 
     fn chmod(&self, p: &str, o: &ChmodO) -> Expect {
@@ -674,8 +682,8 @@ impl Model {
         let sym = o.sym.clone().unwrap_or_default();
         let recurse = o.recurse.unwrap_or(true);
         let vis = match self.visited(&a, recurse, o.follow) {
-            Some(v) => v,
-            None => return Expect::Unspecified("link cycle under follow"),
+            Ok(v) => v,
+            Err(why) => return Expect::Unspecified(why),
         };
         let mut post = self.t.clone();
         for k in vis {
@@ -715,8 +723,8 @@ impl Model {
             return self.unchanged(errk("DoesNotExist"));
         }
         let vis = match self.visited(&a, o.recurse.unwrap_or(true), o.follow) {
-            Some(v) => v,
-            None => return Expect::Unspecified("link cycle under follow"),
+            Ok(v) => v,
+            Err(why) => return Expect::Unspecified(why),
         };
         let mut post = self.t.clone();
         for k in vis {
